@@ -53,18 +53,21 @@ pub fn check(case: &Case, rec: &mut Rec) -> Option<Failure> {
     let pow2 = c.abs().log2().fract() == 0.0;
     let rel = if mode == 0 { if pow2 { 1e-12 } else { 1e-9 } } else { 1e-9 };
     let mut big = 0.0f64;
+    let mut big2 = 0.0f64; // magnitude of the TRANSFORMED run: tolerances are relative to it
     // conditioning of dimensionless outputs (ratios): reuse the C03 reference
     let mut cref = super::c03::Ref::new(name, &case.ps);
     for (i, op) in case.ops.iter().enumerate() {
         let (o1, o2, judged) = match op {
             Op::Next(x) => {
-                big = big.max(x.abs()).max((x * c + d).abs());
+                big = big.max(x.abs());
+                big2 = big2.max((x * c + d).abs());
                 let o1 = rec.next(a, *x)?;
                 let o2 = twin.next(x * c + d);
                 (o1, o2, cref.step(Some(*x), None))
             }
             Op::Bar(b) => {
-                big = big.max(bar_mag(b)).max(bar_mag(b) * c.abs() + d.abs());
+                big = big.max(bar_mag(b));
+                big2 = big2.max(bar_mag(b) * c.abs() + d.abs());
                 let o1 = rec.bar(a, b)?;
                 let sb = scale_op(op, c, d, false);
                 let o2 = if let Op::Bar(sb) = &sb { twin.next_bar(sb) } else { vec![] };
@@ -77,9 +80,11 @@ pub fn check(case: &Case, rec: &mut Rec) -> Option<Failure> {
             // SD itself, and the Bollinger half-widths
             let disp = name == "StandardDeviation" || (name == "BollingerBands" && j > 0);
             if disp {
-                let (a, b) = if name == "BollingerBands" { (p - o1[0], q - o2[0]) } else { (*p, *q) };
+                // Bollinger half-widths are multiplier·SD: compare the SDs
+                let mdiv = if name == "BollingerBands" && case.ms[0] != 0.0 { case.ms[0] } else { 1.0 };
+                let (a, b) = if name == "BollingerBands" { ((p - o1[0]) / mdiv, (q - o2[0]) / mdiv) } else { (*p, *q) };
                 let want = if mode == 0 { a * c } else { a };
-                let scale = if mode == 0 { big * c.abs().max(1.0) } else { big };
+                let scale = big2;
                 let ok = (a.is_nan() && b.is_nan()) || (b * b - want * want).abs() <= rel * scale * scale;
                 if !ok {
                     return fail(case, if mode == 0 { "scale-covariance" } else { "shift-covariance" }, format!("step {} output #{} (dispersion, compared as variance): {:e} vs {:e} expected {:e}", i, j, a, b, want));
@@ -89,7 +94,7 @@ pub fn check(case: &Case, rec: &mut Rec) -> Option<Failure> {
             let (want, tol) = if mode == 0 {
                 if price_valued(name) {
                     // compare relative to the largest magnitude (differences of EMAs may cancel)
-                    (p * c, rel * big.max(p.abs() * c.abs()))
+                    (p * c, rel * big2.max(p.abs() * c.abs()))
                 } else {
                     let cond = judged.get(j).and_then(|x| x.as_ref()).map(|x| x.c * x.scale).unwrap_or(f64::INFINITY);
                     if !(cond <= 1e6) && !pow2 {
@@ -99,7 +104,7 @@ pub fn check(case: &Case, rec: &mut Rec) -> Option<Failure> {
                 }
             } else {
                 match shift_kind(name) {
-                    Some(true) => (p + d, rel * big),
+                    Some(true) => (p + d, rel * big2),
                     Some(false) => {
                         if name == "FastStochastic" {
                             let cond = judged.get(j).and_then(|x| x.as_ref()).map(|x| x.c * x.scale).unwrap_or(f64::INFINITY);
@@ -108,7 +113,7 @@ pub fn check(case: &Case, rec: &mut Rec) -> Option<Failure> {
                             }
                             (*p, rel * cond * (1.0 + d.abs()))
                         } else {
-                            (*p, rel * big)
+                            (*p, rel * big2)
                         }
                     }
                     None => continue,
